@@ -8,7 +8,103 @@ use tevec::prelude::{IsNone, Vec1View};
 
 /// A generic visitor: called once per back-end configuration with the concrete container.
 pub trait BackendVisitor<T> {
-    fn visit<V: Vec1View<T>>(&mut self, name: &str, v: &V);
+    fn visit<V: Vec1View<T> + SliceRead<T>>(&mut self, name: &str, v: &V);
+}
+
+/// Reading the items of a back end's slice type by the slice type's own std/ndarray/polars iteration
+/// (implemented per container because the slice type is a GAT).
+pub trait SliceRead<T>: Vec1View<T> {
+    fn read_slice<'a>(s: &Self::SliceOutput<'a>) -> Vec<T>
+    where
+        Self: 'a,
+        T: 'a;
+}
+impl<T: Clone> SliceRead<T> for Vec<T> {
+    fn read_slice<'a>(s: &&'a [T]) -> Vec<T>
+    where
+        T: 'a,
+    {
+        s.to_vec()
+    }
+}
+impl<T: Clone, const N: usize> SliceRead<T> for [T; N] {
+    fn read_slice<'a>(s: &&'a [T]) -> Vec<T>
+    where
+        T: 'a,
+    {
+        s.to_vec()
+    }
+}
+impl<T: Clone> SliceRead<T> for VecDeque<T> {
+    fn read_slice<'a>(s: &std::collections::vec_deque::Iter<'a, T>) -> Vec<T>
+    where
+        T: 'a,
+    {
+        s.clone().cloned().collect()
+    }
+}
+impl<T: Clone> SliceRead<T> for Array1<T> {
+    fn read_slice<'a>(s: &ndarray::ArrayView1<'a, T>) -> Vec<T>
+    where
+        T: 'a,
+    {
+        s.iter().cloned().collect()
+    }
+}
+impl<'t, T: Clone> SliceRead<T> for ndarray::ArrayView1<'t, T> {
+    fn read_slice<'a>(s: &ndarray::ArrayView1<'a, T>) -> Vec<T>
+    where
+        Self: 'a,
+        T: 'a,
+    {
+        s.iter().cloned().collect()
+    }
+}
+impl<'t, T: Clone> SliceRead<T> for ndarray::ArrayViewMut1<'t, T> {
+    fn read_slice<'a>(s: &ndarray::ArrayView1<'a, T>) -> Vec<T>
+    where
+        Self: 'a,
+        T: 'a,
+    {
+        s.iter().cloned().collect()
+    }
+}
+impl<V: SliceRead<T>, T> SliceRead<T> for Arc<V> {
+    fn read_slice<'a>(s: &V::SliceOutput<'a>) -> Vec<T>
+    where
+        Self: 'a,
+        T: 'a,
+    {
+        V::read_slice(s)
+    }
+}
+impl<'o, V: Vec1View<T>, T: IsNone + 'o> SliceRead<Option<T::Inner>> for tevec::prelude::OptIter<'o, V, T>
+where
+    for<'b> V::SliceOutput<'b>: tevec::prelude::TIter<T>,
+{
+    fn read_slice<'a>(s: &Vec<Option<T::Inner>>) -> Vec<Option<T::Inner>>
+    where
+        Self: 'a,
+        Option<T::Inner>: 'a,
+    {
+        s.clone()
+    }
+}
+impl SliceRead<Option<f64>> for Float64Chunked {
+    fn read_slice<'a>(s: &Float64Chunked) -> Vec<Option<f64>>
+    where
+        Self: 'a,
+    {
+        s.into_iter().collect()
+    }
+}
+impl SliceRead<Option<f64>> for &Float64Chunked {
+    fn read_slice<'a>(s: &Float64Chunked) -> Vec<Option<f64>>
+    where
+        Self: 'a,
+    {
+        s.into_iter().collect()
+    }
 }
 
 /// ring buffer of capacity `cap` whose head sits at physical offset `off`
